@@ -48,7 +48,7 @@ theorem call_reported
   have hrunv : bc.run env = .ok (some { id := r.id, sev := r.level, conf := .high }) := by
     rw [hrun]
     exact blacklistRun_call (e := env) hkind hc hni (hqual ▸ hq1) (hqual ▸ hq2) (hqual ▸ hr)
-  have := runCheck_plain (nm := inp.nosec) hrunv hid hns rfl rfl (l := p.line) (col := p.col)
+  have := runCheck_plain (nm := inp.nosec) hrunv hid hns rfl (l := p.line) (col := p.col)
     (by simp [env, Node.line?, hpos]) (by simp [env, Node.col?, hpos])
   show _ ∈ runCheck inp.nosec env bc
   rw [this]
@@ -158,7 +158,7 @@ theorem import_reported
       simp only [blacklistRun, Env.node, env, h1, h2, h3, Bool.false_eq_true, if_false, Bool.false_or, if_true, hkind]
       rw [hr]
       rfl
-  have := runCheck_plain (nm := inp.nosec) hrunv hid hns rfl rfl (l := p.line) (col := p.col)
+  have := runCheck_plain (nm := inp.nosec) hrunv hid hns rfl (l := p.line) (col := p.col)
     (by simp [env, Node.line?, hpos]) (by simp [env, Node.col?, hpos])
   show _ ∈ runCheck inp.nosec env bc
   rw [this]
